@@ -216,4 +216,54 @@ theorem sign_every_signature_checked (m : Msg) (vs : List Verifier) (ext : Optio
         · simp only [he, Bool.false_eq_true, if_false] at h
           exact ⟨w, sigs, rfl, hs, by intro hnil; subst hnil; simp at he, verifySign_go_ok vs ext w sigs h⟩
 
+/-! ### the signatures array itself: one signature object per wire element, none skipped -/
+
+/-- a signature object comes only out of a three-member array (up to tags): null, undefined, anything else in the
+    signatures array makes the whole message undecodable -/
+theorem sigField_ok_shape (c : Cbor) (s : SigObj) (h : sigField c = .ok s) : ∃ p u g, untag c = .arr [p, u, g] := by
+  unfold sigField at h
+  split at h
+  · exact ⟨_, _, _, by assumption⟩
+  · cases h
+
+/-- decoding the signatures array yields exactly one object per element, each element being a three-member array -/
+theorem decSeq_sigField_shape (cs : List Cbor) (l : List SigObj) (h : decSeq sigField cs = .ok l) :
+    l.length = cs.length ∧ ∀ c ∈ cs, ∃ p u g, untag c = .arr [p, u, g] := by
+  induction cs generalizing l with
+  | nil => simp only [decSeq, Dec.ok.injEq] at h; subst h; exact ⟨rfl, fun c hc => by cases hc⟩
+  | cons c cs ih =>
+    unfold decSeq at h
+    cases hc : sigField c with
+    | err => simp [hc] at h
+    | unmodelled => cases hr : decSeq sigField cs <;> simp [hc, hr] at h
+    | ok a =>
+      cases hr : decSeq sigField cs with
+      | err => simp [hc, hr] at h
+      | unmodelled => simp [hc, hr] at h
+      | ok r =>
+        simp only [hc, hr, Dec.ok.injEq] at h
+        subst h
+        obtain ⟨hl, hall⟩ := ih r hr
+        refine ⟨by simp [hl], fun x hx => ?_⟩
+        rcases List.mem_cons.mp hx with rfl | hx'
+        · exact sigField_ok_shape _ a hc
+        · exact hall x hx'
+
+/-- **a COSE_Sign array with a null (or any non-signature) entry in its signatures list does not decode**; together
+    with `sign_every_signature_checked` and `sign_no_signatures_rejected`: a message verifies only if its list is
+    non-empty, every wire element is a COSE_Signature, and every one of them was checked -/
+theorem sign_null_entry_rejected (p u y : Cbor) (cs : List Cbor) (c : Cbor) (hc : c ∈ cs)
+    (hn : untag c = .simple 22 ∨ untag c = .simple 23) (w : Wire) :
+    wireOfCbor .sign (.arr [p, u, y, .arr cs]) ≠ .ok w := by
+  intro h
+  simp only [wireOfCbor, untag] at h
+  cases hp : bytesField p <;> cases hu : hdrField u <;> cases hy : bytesField y <;> simp only [hp, hu, hy] at h <;> try cases h
+  cases hd : decSeq sigField cs with
+  | err => simp [hd] at h
+  | unmodelled => simp [hd] at h
+  | ok l =>
+    obtain ⟨_, hall⟩ := decSeq_sigField_shape cs l hd
+    obtain ⟨a, b, g, hshape⟩ := hall c hc
+    rcases hn with hn | hn <;> (rw [hn] at hshape; cases hshape)
+
 end Cose.Props.C02
